@@ -22,6 +22,9 @@ var (
 	c11Decoys   = []string{"InReplyTo", "Location", "Replies", "URL", "Likes", "Shares", "To", "CC", "Result", "Origin", "Instrument", "Items", "OrderedItems", "First", "OneOf", "Describes", "Subject", "Inbox"}
 )
 
+// c11TypesX: the 13 types with their default names, plus the Activity struct carrying the intransitive names
+var c11TypesX = append(append([]string{}, c11Types...), "Activity[Travel]", "Activity[Arrive]", "Activity[Question]")
+
 type c11Node struct {
 	v     reflect.Value // addressable struct
 	path  string
@@ -216,9 +219,17 @@ func TestC11(t *testing.T) {
 
 	embedTypes := []string{"Object", "Actor", "Activity", "Question", "Collection", "Place"}
 	mkNode := func(c *vocab.Counter, gt string) (ap.Item, reflect.Value) {
+		// "Activity[Travel]": the Activity struct carrying another vocabulary name (the struct decides what is walked, not the name)
+		typ := ""
+		if i := strings.Index(gt, "["); i > 0 {
+			gt, typ = gt[:i], strings.TrimSuffix(gt[i+1:], "]")
+		}
 		p := reflect.New(vocab.StructType(gt))
 		p.Elem().FieldByName("ID").SetString(string(c.ID(strings.ToLower(gt))))
 		p.Elem().FieldByName("Type").SetString(string(vocab.DefaultType[gt]))
+		if typ != "" {
+			p.Elem().FieldByName("Type").SetString(typ)
+		}
 		bto, bcc := c11Priv(c)
 		p.Elem().FieldByName("Bto").Set(reflect.ValueOf(bto))
 		p.Elem().FieldByName("BCC").Set(reflect.ValueOf(bcc))
@@ -246,7 +257,7 @@ func TestC11(t *testing.T) {
 	if r.WantLayer("positions", true) {
 		total, done := 0, 0
 		positions := append(append(append([]string{}, c11Walked...), c11Activity...), c11Decoys...)
-		for _, gt := range c11Types {
+		for _, gt := range c11TypesX {
 			for _, pos := range positions {
 				for _, asList := range []bool{false, true} {
 					for _, et := range embedTypes {
@@ -296,9 +307,9 @@ func TestC11(t *testing.T) {
 	if r.WantLayer("states", true) {
 		total, done := 0, 0
 		states := []string{"nil/nil", "empty/empty", "empty/nil", "nil/empty", "populated/empty", "cleaned-before"}
-		for _, gt := range c11Types {
+		for _, gt := range c11TypesX {
 			walked := append([]string{}, c11Walked...)
-			if gt == "Activity" {
+			if strings.HasPrefix(gt, "Activity") {
 				walked = append(walked, c11Activity...)
 			}
 			for _, pos := range walked {
@@ -353,9 +364,9 @@ func TestC11(t *testing.T) {
 	// image): once as a bare IRI or as a clean embedded copy, once embedded with private recipients - both must end up clean
 	if r.WantLayer("same-id", true) {
 		total, done := 0, 0
-		for _, gt := range c11Types {
+		for _, gt := range c11TypesX {
 			walked := append([]string{}, c11Walked...)
-			if gt == "Activity" {
+			if strings.HasPrefix(gt, "Activity") {
 				walked = append(walked, c11Activity...)
 			}
 			for _, p1 := range walked {
